@@ -538,7 +538,30 @@ func r6ProducerBody(c *RuleCtx, fn *ssa.Function, props []string, name string, a
 	}
 	var syncSites, closeSites []ssa.CallInstruction
 	delegateSucc := map[ssa.CallInstruction]uint64{} // delegate call -> events certain when it returns nil
-	for _, cs := range callSites(fn) {
+	// a deferred closure that assigns the function's error variable completes the output itself
+	// (`defer func() { if err == nil { err = br.Flush() } ... }()`): its calls are completion steps too
+	var completing []*ssa.Function
+	completingCell := map[*ssa.Function]*ssa.FreeVar{}
+	eachInstr(fn, func(_ *ssa.BasicBlock, in ssa.Instruction) {
+		d, ok := in.(*ssa.Defer)
+		if !ok {
+			return
+		}
+		cl := resolvedCallee(d)
+		if cl == nil || cl.Parent() != fn {
+			return
+		}
+		if fv := errCellAssignedBy(cl); fv != nil {
+			completing = append(completing, cl)
+			completingCell[cl] = fv
+		}
+	})
+	var discoverSites []ssa.CallInstruction
+	discoverSites = append(discoverSites, callSites(fn)...)
+	for _, cl := range completing {
+		discoverSites = append(discoverSites, callSites(cl)...)
+	}
+	for _, cs := range discoverSites {
 		if acq != nil && cs == ssa.CallInstruction(acq) {
 			continue
 		}
@@ -742,6 +765,139 @@ func r6ProducerBody(c *RuleCtx, fn *ssa.Function, props []string, name string, a
 	var tr transferFn
 	var pa *pathAnalysis
 	closureSummary := map[*ssa.Function]uint64{}
+	// runCompleting runs a completing deferred closure on top of the state ev of an exit: the closure's own
+	// CFG is walked with the same transfer function; the captured error variable is followed as a cell
+	// (which completion step's error it holds, or still the value the function was about to return — nil
+	// or not, `entry`); tests of the variable prune and teach as in the function body. Every state at a
+	// return of the closure is tagged with what the function finally reports (nil / non-nil error).
+	const (
+		holdShift = 11
+		holdMask  = uint64(15) << holdShift
+		evEntryNN = uint64(1) << 15 // the function was about to return a non-nil error
+	)
+	runCompleting := func(cl *ssa.Function, fv *ssa.FreeVar, ev uint64, entry nilState) []uint64 {
+		isErrLoad := func(v ssa.Value) bool {
+			u, ok := v.(*ssa.UnOp)
+			return ok && u.Op == token.MUL && u.X == ssa.Value(fv)
+		}
+		holderOf := func(e uint64) int { return int((e & holdMask) >> holdShift) } // 0 entry, k+1 = esites[k]
+		condOf := func(b *ssa.BasicBlock) (nilWhen bool, ok bool) {
+			iff, isIf := b.Instrs[len(b.Instrs)-1].(*ssa.If)
+			if !isIf || len(b.Succs) != 2 {
+				return false, false
+			}
+			x, nw, isTest := nilTestOf(iff.Cond)
+			if !isTest || !isErrLoad(x) {
+				return false, false
+			}
+			return nw, true
+		}
+		var out []uint64
+		worlds := []nilState{entry}
+		if entry == nilUnknown {
+			worlds = []nilState{isNil, nonNil}
+		}
+		for _, w := range worlds {
+			init := ev &^ (holdMask | evEntryNN)
+			if w == nonNil {
+				init |= evEntryNN
+			}
+			npa := newPathAnalysis(cl, func(in ssa.Instruction, e uint64, d bool) []uint64 {
+				if st, ok := in.(*ssa.Store); ok && st.Addr == ssa.Value(fv) {
+					// the variable now holds the error of a completion step (or something unknown)
+					e &^= holdMask
+					if es := siteOfErr[st.Val]; es != nil {
+						for k, x := range esites {
+							if x == es && k < 14 {
+								e |= uint64(k+1) << holdShift
+							}
+						}
+					} else {
+						e |= uint64(15) << holdShift // unknown content
+					}
+					return []uint64{e}
+				}
+				return tr(in, e, d)
+			})
+			npa.edge = func(pred, succ *ssa.BasicBlock, e uint64) bool {
+				nilWhen, ok := condOf(pred)
+				if !ok {
+					return true
+				}
+				saysNil := (succ == pred.Succs[0]) == nilWhen
+				switch h := holderOf(e); {
+				case h == 0:
+					return saysNil == (e&evEntryNN == 0)
+				case h >= 1 && h <= len(esites):
+					es := esites[h-1]
+					if saysNil && e&es.n != 0 {
+						return false
+					}
+				}
+				return true
+			}
+			npa.edgeTr = func(pred *ssa.BasicBlock, succIdx int, e uint64) uint64 {
+				nilWhen, ok := condOf(pred)
+				if !ok {
+					return e
+				}
+				saysNil := (succIdx == 0) == nilWhen
+				if h := holderOf(e); h >= 1 && h <= len(esites) {
+					es := esites[h-1]
+					if saysNil {
+						e &^= es.u
+					} else {
+						e |= es.n
+					}
+				}
+				return e
+			}
+			npa.run(init)
+			if npa.truncated {
+				return []uint64{ev}
+			}
+			for _, ret := range returnsOf(cl) {
+				for _, e := range npa.statesBefore(ret) {
+					final := nilUnknown
+					switch h := holderOf(e); {
+					case h == 0:
+						final = isNil
+						if e&evEntryNN != 0 {
+							final = nonNil
+						}
+					case h >= 1 && h <= len(esites):
+						es := esites[h-1]
+						if e&es.n != 0 {
+							final = nonNil
+						} else if e&es.u == 0 {
+							final = isNil
+						}
+					}
+					if !returnsCellContent(pa.cur, cellOf(fv)) {
+						// the variable is not the function's (named) result: what the function reports was
+						// fixed before the deferred closure ran, whatever the closure assigned
+						final = isNil
+						if e&evEntryNN != 0 {
+							final = nonNil
+						}
+					}
+					e &^= holdMask | evEntryNN
+					switch final {
+					case isNil:
+						out = append(out, e|evAssumeNil)
+					case nonNil:
+						out = append(out, e|evAssumeNonNil)
+					default:
+						out = append(out, e|evAssumeNil, e|evAssumeNonNil)
+					}
+				}
+			}
+		}
+		if len(out) == 0 {
+			return []uint64{ev}
+		}
+		return out
+	}
 	var tr0 transferFn
 	tr = func(in ssa.Instruction, ev uint64, deferred bool) []uint64 {
 		out := tr0(in, ev, deferred)
@@ -802,6 +958,9 @@ func r6ProducerBody(c *RuleCtx, fn *ssa.Function, props []string, name string, a
 			// a deferred closure guarded by the function's error variable
 			// (`defer func() { if err != nil { cleanup } }()`): what it does
 			// depends on that variable at this exit
+			if fv := completingCell[callee]; fv != nil && deferred && pa != nil && pa.cur != nil && !knowOverflow {
+				return runCompleting(callee, fv, ev, cellNilnessAt(cellOf(fv), pa.cur))
+			}
 			if deferred && pa != nil && pa.cur != nil {
 				if cell, whenNonNil, whenNil, ok := errGuardedClosure(callee, tr); ok {
 					switch guardStateAt(cell, pa.cur) {
@@ -914,7 +1073,14 @@ func r6ProducerBody(c *RuleCtx, fn *ssa.Function, props []string, name string, a
 
 	// ordering: each role must come after the roles that precede it in
 	// source order of first site; Close after all roles (and after Sync)
-	sort.SliceStable(roles, func(i, j int) bool { return roles[i].sites[0].Pos() < roles[j].sites[0].Pos() })
+	// (the steps of a completing deferred closure come after everything in the body)
+	sort.SliceStable(roles, func(i, j int) bool {
+		ci, cj := roles[i].sites[0].Parent() != fn, roles[j].sites[0].Parent() != fn
+		if ci != cj {
+			return cj
+		}
+		return roles[i].sites[0].Pos() < roles[j].sites[0].Pos()
+	})
 	for i, r := range roles {
 		for _, site := range r.sites {
 			okOrder := true
@@ -960,9 +1126,13 @@ func r6ProducerBody(c *RuleCtx, fn *ssa.Function, props []string, name string, a
 			}
 			continue
 		}
-		if v != nil && aerr != nil && (sameValue(v, aerr) || sameValue(resolveLoad(v), aerr)) && ns == nonNil {
+		if v != nil && aerr != nil && (sameValue(v, aerr) || sameValue(resolveLoad(v), aerr) || sameValue(resolveLoadDeep(v), aerr)) && (ns == nonNil || nilnessAt(aerr, ret.Block()) == nonNil) {
 			c.okP(props, key, pos, "exit after failed acquisition needs no cleanup")
 			continue
+		}
+		if len(completing) > 0 {
+			// the deferred closure may turn a nil into an error (and says, per state, what is reported)
+			ns = nilUnknown
 		}
 		needFail := ns != isNil
 		if delegateMode && needFail {
@@ -1089,6 +1259,26 @@ func r6ProducerBody(c *RuleCtx, fn *ssa.Function, props []string, name string, a
 		return 0
 	}
 	return succMust
+}
+
+// errCellAssignedBy: closure cl assigns a captured error variable of its parent (returns that free
+// variable): it does not merely look at the error, it decides it.
+func errCellAssignedBy(cl *ssa.Function) *ssa.FreeVar {
+	var out *ssa.FreeVar
+	eachInstr(cl, func(_ *ssa.BasicBlock, in ssa.Instruction) {
+		st, ok := in.(*ssa.Store)
+		if !ok {
+			return
+		}
+		fv, ok := st.Addr.(*ssa.FreeVar)
+		if !ok || !isErrorType(derefType(fv.Type())) {
+			return
+		}
+		if cell := cellOf(fv); cell != nil && cell.Parent() == cl.Parent() {
+			out = fv
+		}
+	})
+	return out
 }
 
 // delegatesToProducer: the error value v returned by an exit is the error result of a call to a function
